@@ -27,7 +27,132 @@ import (
 
 type M = map[string]any
 
-func J(t, v string) M { return M{"t": t, "v": v} }
+func J(t, v string) M {
+	if t == "num" {
+		_, isInt := new(big.Int).SetString(v, 10)
+		return M{"t": t, "v": v, "int": isInt}
+	}
+	return M{"t": t, "v": v}
+}
+
+// DocTree parses an OpenAPI document (JSON rendering) into a tagged tree in which every "$ref"
+// value is pre-split into its JSON-pointer segments: [t |-> "ref", path |-> <<...>>, raw |-> "..."].
+func DocTree(b []byte) (M, error) {
+	t, err := ParseJSON(b)
+	if err != nil {
+		return nil, err
+	}
+	splitRefs(t)
+	return t, nil
+}
+
+func splitRefs(n M) {
+	switch n["t"] {
+	case "obj":
+		for _, m := range n["m"].([]M) {
+			v := m["v"].(M)
+			if m["k"] == "$ref" && v["t"] == "str" {
+				raw := v["v"].(string)
+				segs := []string{}
+				if strings.HasPrefix(raw, "#/") {
+					segs = strings.Split(strings.TrimPrefix(raw, "#/"), "/")
+				}
+				m["v"] = M{"t": "ref", "path": segs, "raw": raw}
+				continue
+			}
+			splitRefs(v)
+		}
+	case "arr":
+		for _, e := range n["e"].([]M) {
+			splitRefs(e)
+		}
+	}
+}
+
+// FromGeneric converts a generically decoded document (YAML parsers) into the same tagged tree.
+func FromGeneric(v any) M {
+	switch x := v.(type) {
+	case map[string]any:
+		keys := make([]string, 0, len(x))
+		for k := range x {
+			keys = append(keys, k)
+		}
+		sort.Strings(keys)
+		ms := []M{}
+		for _, k := range keys {
+			ms = append(ms, M{"k": k, "v": FromGeneric(x[k])})
+		}
+		return M{"t": "obj", "m": ms}
+	case map[any]any:
+		m2 := map[string]any{}
+		for k, vv := range x {
+			m2[fmt.Sprint(k)] = vv
+		}
+		return FromGeneric(m2)
+	case []any:
+		es := []M{}
+		for _, e := range x {
+			es = append(es, FromGeneric(e))
+		}
+		return M{"t": "arr", "e": es}
+	case string:
+		return J("str", x)
+	case bool:
+		return J("bool", strconv.FormatBool(x))
+	case nil:
+		return M{"t": "null"}
+	case int:
+		return J("num", strconv.Itoa(x))
+	case int64:
+		return J("num", strconv.FormatInt(x, 10))
+	case uint64:
+		return J("num", strconv.FormatUint(x, 10))
+	case float64:
+		return J("num", CanonNum(strconv.FormatFloat(x, 'g', -1, 64)))
+	case json.Number:
+		return J("num", CanonNum(x.String()))
+	}
+	return J("str", fmt.Sprintf("?%T:%v", v, v))
+}
+
+// SortTree orders object members by key (for comparing documents read by different parsers).
+func SortTree(n M) M {
+	switch n["t"] {
+	case "obj":
+		ms := append([]M{}, n["m"].([]M)...)
+		sort.SliceStable(ms, func(a, b int) bool { return ms[a]["k"].(string) < ms[b]["k"].(string) })
+		out := []M{}
+		for _, m := range ms {
+			out = append(out, M{"k": m["k"], "v": SortTree(m["v"].(M))})
+		}
+		return M{"t": "obj", "m": out}
+	case "arr":
+		out := []M{}
+		for _, e := range n["e"].([]M) {
+			out = append(out, SortTree(e))
+		}
+		return M{"t": "arr", "e": out}
+	}
+	return n
+}
+
+// Lookup walks object members by key.
+func Lookup(n M, path ...string) M {
+	cur := n
+	for _, k := range path {
+		if cur == nil || cur["t"] != "obj" {
+			return nil
+		}
+		var next M
+		for _, m := range cur["m"].([]M) {
+			if m["k"] == k {
+				next = m["v"].(M)
+			}
+		}
+		cur = next
+	}
+	return cur
+}
 
 // CanonNum normalises a JSON number literal: integers exactly, everything else through float64.
 func CanonNum(lit string) string {
